@@ -109,6 +109,20 @@ def evaluator_lock_rule(ctx, program, rid):
                   key="shared evaluator unlocked", node=ev, rel="decorators/base.py")
 
 
+def _is_copied(name):
+    """The occurrence of a dictionary name is the operand of one of Python's shallow-copy idioms: d.copy(), dict(d), dict(d, k=v), {**d}, d | {..}, copy.copy(d), copy.deepcopy(d)."""
+    p = getattr(name, "_parent", None)
+    if isinstance(p, ast.Attribute) and p.attr == "copy" and isinstance(getattr(p, "_parent", None), ast.Call) and p._parent.func is p:
+        return True
+    if isinstance(p, ast.Call) and name in p.args and call_name(p) in ("dict", "copy.copy", "copy.deepcopy", "deepcopy"):
+        return True
+    if isinstance(p, ast.Dict) and any(k is None and v is name for k, v in zip(p.keys, p.values)):
+        return True
+    if isinstance(p, ast.BinOp) and isinstance(p.op, ast.BitOr):
+        return True
+    return False
+
+
 def fanout_copy_rule(ctx, program, rid):
     """Each subscriber queue of a source receives its own copy of the occurrence's arguments (waits and triggers mutate / return what they receive)."""
     for uid in ("state.py::State.update", "event.py::Event.update", "mqtt.py::Mqtt.update", "webhook.py::Webhook.update"):
@@ -123,8 +137,7 @@ def fanout_copy_rule(ctx, program, rid):
                 if isinstance(q, (ast.For, ast.AsyncFor)):
                     inloop = True
                 q = getattr(q, "_parent", None)
-            shared = [m for m in ast.walk(p.args[0]) if isinstance(m, ast.Name) and m.id == "func_args"
-                      and not (isinstance(getattr(m, "_parent", None), ast.Attribute) and m._parent.attr == "copy" and isinstance(getattr(m._parent, "_parent", None), ast.Call))]
+            shared = [m for m in ast.walk(p.args[0]) if isinstance(m, ast.Name) and m.id == "func_args" and not _is_copied(m)]
             ctx.check(inloop and not shared, rid, uid, "per-subscriber put passes func_args.copy()",
                       msg=f"{uid}: `{short(p)}` hands the same func_args dictionary to every subscriber: one function's decorator kwargs (merged in place by the trigger loop) leak into "
                       f"the other functions triggered by the same message", key="fan-out shares func_args", node=p, rel=uid.split("::")[0])
@@ -190,9 +203,25 @@ def filter_scope_rule(ctx, program, rid):
                   key="filter scope per message", node=program.func(uid), rel=uid.split("::")[0])
 
 
-def _arg_keys(f):
+def _with_helpers(program, uid, depth=2):
+    """The nodes of a function and of the helpers of its own class / module that it calls (a helper extracted from it builds part of its result)."""
+    unit = program.unit(uid)
+    seen, todo, nodes = [unit.node], [(unit, 0)], []
+    while todo:
+        u, d = todo.pop(0)
+        for n in body_walk(u.node):
+            nodes.append(n)
+            if d < depth and isinstance(n, ast.Call) and isinstance(n.func, (ast.Name, ast.Attribute)):
+                hu = program.resolve_callable(u, n.func)
+                if hu is not None and isinstance(hu.node, (ast.FunctionDef, ast.AsyncFunctionDef)) and not any(hu.node is x for x in seen):
+                    seen.append(hu.node)
+                    todo.append((hu, d + 1))
+    return nodes
+
+
+def _arg_keys(program, uid):
     keys, updates = set(), []
-    for n in body_walk(f):
+    for n in _with_helpers(program, uid):
         if isinstance(n, ast.Dict) and any(isinstance(k, ast.Constant) and k.value == "trigger_type" for k in n.keys):
             keys |= {k.value for k in n.keys if isinstance(k, ast.Constant)}
             updates += [norm(v) for k, v in zip(n.keys, n.values) if k is None]  # {**data, ...}: a merge like func_args.update(data)
@@ -208,8 +237,8 @@ def run(ctx):
     program = ctx.program
     ctx.rule("R08.1", "legacy listener and new decorator of a source build the same keyword arguments", floor=3)
     for src, (legacy, new) in SOURCES.items():
-        kl, ul = _arg_keys(program.func(legacy))
-        kn, un = _arg_keys(program.func(new))
+        kl, ul = _arg_keys(program, legacy)
+        kn, un = _arg_keys(program, new)
         ctx.check(kl == kn and ul == un and "trigger_type" in kl, "R08.1", new, f"{src}: same keys and payload merge in both subsystems",
                   msg=f"{src} trigger arguments differ between subsystems: legacy keys {sorted(kl)} + update({ul}), new keys {sorted(kn)} + update({un})", key=f"{src} argument keys",
                   node=program.func(new), rel=new.split("::")[0], sample={"keys": sorted(kl)})
